@@ -151,3 +151,19 @@ def mc_text(pid, tier, w, v):
     r = vh(["mctext", "--in", f], name=pid.lower() + "mt")
     v.add_report(r, "minecraft status strings")
     return [r], mc
+
+
+def unreal2_trace(pid, tier, seed, w, v, lay):
+    """implementation -> specification: random recorded Unreal 2 queries (toggles, retries up to 5, an outcome per attempt)
+    validated line by line against Trace_Unreal2.tla"""
+    quick = tier != "thorough"
+    tf = f"{w}/unreal2_trace.ndjson"
+    if not quick:
+        lay, _, _ = tables("quick", workdir(os.path.basename(w) + "_q"))
+    r = vh(["unreal2-trace", "--layouts", lay, "--runs", 6000 if quick else 150000, "--seed", seed, "--out-trace", tf], name=pid.lower() + "ut")
+    v.add_report(r, "recorded unreal 2 queries")
+    def redo(ix):
+        rr = vh(["unreal2-trace", "--layouts", lay, "--runs", ix + 1, "--seed", seed, "--dump-run", ix, "--out-trace", tf + ".redo"], name=pid.lower() + "utr")
+        return rr.get("extra", {}).get("dumped_run")
+    validated, ts = validate_trace(v, "Trace_Unreal2.tla", "Trace_Unreal2.cfg", tf, splitter="Call", max_rounds=8, redo=redo)
+    return r, validated, dict(ts, cfg="Trace_Unreal2.cfg", events=r.get("extra", {}).get("events"))
